@@ -1052,3 +1052,19 @@ mod next_init_tick_tests {
         assert_eq!(result, None);
     }
 }
+
+// verification hooks (feature `verif` only)
+#[cfg(feature = "verif")]
+impl DynamicTickArrayLoader {
+    pub fn verif_byte_offset(&self, tick_offset: isize) -> Result<usize> {
+        self.byte_offset(tick_offset)
+    }
+
+    pub fn verif_tick_bitmap(&self) -> u128 {
+        self.tick_bitmap()
+    }
+
+    pub fn verif_tick_data(&self) -> &[u8] {
+        self.tick_data()
+    }
+}
